@@ -3,6 +3,7 @@
 mod act;
 mod body;
 mod c13;
+mod pipe;
 mod radix;
 mod router;
 mod tok;
@@ -24,6 +25,7 @@ fn main() {
         "router" => util::run_cases(inp, outp, router::run),
         "body" => util::run_cases(inp, outp, body::run),
         "tok" => util::run_cases(inp, outp, tok::run),
+        "pipe" => util::run_cases(inp, outp, pipe::run_case),
         "act" => util::run_cases(inp, outp, act::run),
         other => {
             eprintln!("harness: unknown driver {}", other);
